@@ -106,7 +106,7 @@ func (w *siteWalker) noteAssign(lhs []ast.Expr, rhs []ast.Expr) {
 			case *ast.MapType:
 				w.isMap[id.Name] = true
 			case *ast.Ident:
-				if t.Name == "Info" || t.Name == "Table" || t.Name == "Set" {
+				if t.Name == "Info" || t.Name == "Table" || t.Name == "Set" || t.Name == "Format4" || t.Name == "Format12" {
 					w.isMap[id.Name] = true // named map types of the modelled packages
 				}
 			}
